@@ -34,12 +34,16 @@ func (t *inProcessTransport) Close() error {
 	return nil
 }
 
-func (t *inProcessTransport) Send(_ context.Context, e envelope) error {
+func (t *inProcessTransport) Send(ctx context.Context, e envelope) error {
 	if !t.Connected() {
 		return errors.New("transport is closed")
 	}
-	t.remote.envChan <- e
-	return nil
+	select {
+	case <-ctx.Done():
+		return fmt.Errorf("send: %w", ctx.Err())
+	case t.remote.envChan <- e:
+		return nil
+	}
 }
 
 func (t *inProcessTransport) Receive(ctx context.Context) (envelope, error) {
